@@ -35,6 +35,7 @@ PROPS = {
     "C18": both,
     "C07": c07,
     "C09": c09,
+    "C14": m_guest.run_c14,
     "C19": m_addr.run,
     "C20": m_endian.run,
 }
